@@ -110,9 +110,10 @@ AncCut(P, S, sh) == LET S2 == S \cup ParOf(P, S \ sh) IN IF S2 = S THEN S ELSE A
      - tracking refs = server heads mapped through the refspec;
      - depth = 0: the client gains every commit reachable from the fetched tips, not looking
        behind its own shallow commits; the shallow set is unchanged;
-     - depth = d: the client (empty before, in the generated domain) holds the commits within
-       d-1 steps of the tips; the commits exactly d-1 steps away are shallow (git lists
-       root commits there too);
+     - depth = d: the client gains the commits within d-1 steps of the tips; the commits exactly
+       d-1 steps away are shallow (git lists root commits there too); commits the client had
+       marked shallow that now lie strictly inside the depth are unshallowed (deepening), the
+       other old shallow marks stay;
      - tags: "all" fetches the tag like a head; "follow" creates it iff the commit it peels to
        is on the client after the transfer of the heads; "none" never.                    *)
 
@@ -129,9 +130,10 @@ FetchPost(P, srv, cl, o) ==
   LET tips == HeadTips(srv, o) \cup TagTips(srv, o)
       commits2 == IF o.depth = 0 THEN cl.commits \cup AncCut(P, tips, cl.shallow)
                   ELSE cl.commits \cup Within(P, tips, o.depth - 1)
+      \* commits strictly inside the requested depth: a client-shallow commit among them is unshallowed
+      interior == IF o.depth <= 1 THEN {} ELSE Within(P, tips, o.depth - 2)
       shallow2 == IF o.depth = 0 THEN cl.shallow
-                  ELSE cl.shallow \cup {c \in Within(P, tips, o.depth - 1) :
-                                          o.depth = 1 \/ c \notin Within(P, tips, o.depth - 2)}
+                  ELSE (cl.shallow \ interior) \cup (Within(P, tips, o.depth - 1) \ interior)
       followed == /\ srv.tag.kind # "none"
                   /\ \/ o.tags = "all"
                      \/ o.tags = "follow" /\ srv.tag.at \in commits2
@@ -153,7 +155,9 @@ Connected(P, cl) ==
    Local and remote references: heads a, b and a (lightweight) tag t; value 0 = absent.
    A push is a list of items [src, dst, force]: src = 0 is a delete request (":dst").
    Options: force (every item forced), lease \in {"none","ok","stale"} on refs/heads/a
-   (--force-with-lease=refs/heads/a:<expected>; "ok": expected = the remote value),
+   (--force-with-lease=refs/heads/a:<expected>; "ok": expected = the remote value; "stale":
+   expected = some other commit -- this includes a reference that is absent on the remote
+   because it was deleted meanwhile: absent is not the expected value either),
    atomic.
 
    Per item, with old = remote[dst] and new = local value of src:
